@@ -11,6 +11,7 @@ let areas : (string list -> string option) list = [
   D_c12.run_case;
   D_pkt.run_case;
   D_c16.run_case;
+  D_recv.run_case;
 ]
 
 let run_case toks =
